@@ -33,6 +33,7 @@ package reportfeed
 // dumps and the message list) reaches it free of '<' and '>'.
 //@ func (*ReportFeed).Status
 //@ requires rf != nil && rf.RecentMessages != nil
+//@ requires[C18] QInv(rf.RecentMessages)
 //@ arith wrap
 //@ atcall[C19] fmt.Sprintf /<html|<h3>|<pre>/: !contains(argstr(a1, 1), "<") && !contains(argstr(a1, 1), ">") && !contains(argstr(a1, 3), "<") && !contains(argstr(a1, 3), ">") && !contains(argstr(a1, 4), "<") && !contains(argstr(a1, 4), ">")
 //@ loop 1
